@@ -12,6 +12,8 @@ def enc_int(i):
 
 def enc_rat(x):
     """exact: every finite float64 is a dyadic rational."""
+    if x is None:
+        return 'nan'
     if isinstance(x, (int, np.integer)):
         return str(int(x))
     if isinstance(x, (float, np.floating)):
